@@ -117,19 +117,41 @@ def compare_tables(expected, exp_cols, observed_rows, obs_cols, types=None):
   used = set()
   budget = [20000]
 
-  def go(k):
-    if k == len(order):
-      return True
-    budget[0] -= 1
-    if budget[0] < 0:
-      return False
-    for j in cand[order[k]]:
-      if j not in used:
-        used.add(j)
-        if go(k + 1):
-          return True
-        used.discard(j)
-    return False
+  def go(_start):
+    # iterative backtracking (a result may hold more descriptor rows than the interpreter's recursion limit)
+    n = len(order)
+    pos = [0] * n          # next candidate index to try at depth k
+    chosen = [None] * n
+    k = 0
+    while True:
+      if k == n:
+        return True
+      budget[0] -= 1
+      if budget[0] < 0:
+        return False
+      cs = cand[order[k]]
+      advanced = False
+      while pos[k] < len(cs):
+        j = cs[pos[k]]
+        pos[k] += 1
+        if j not in used:
+          used.add(j)
+          chosen[k] = j
+          k += 1
+          if k < n:
+            pos[k] = 0
+          advanced = True
+          break
+      if advanced:
+        continue
+      # exhausted at depth k: backtrack
+      if k == 0:
+        return False
+      pos[k] = 0
+      k -= 1
+      used.discard(chosen[k])
+      chosen[k] = None
+  budget[0] = max(budget[0], 50 * len(order))
   if go(0):
     return None
   bad = next((inexact[i] for i in order if not cand[i]), inexact[order[0]])
